@@ -2,7 +2,7 @@
 # ./seedtest.sh <patch.diff> <prop> [tier]  — apply a seeded change to /repo, run the check, undo it straight afterwards
 set -u
 P="$1"; PROP="$2"; TIER="${3:-quick}"
-git -C /repo apply "$P" || exit 9
+git -C /repo apply "$(realpath "$P")" || exit 9
 ./check "$PROP" --tier "$TIER" > /tmp/seedtest.out 2>&1; RC=$?
 git -C /repo checkout -- .
 find /repo -name __pycache__ -path '*mesonbuild*' -prune -exec rm -rf {} + 2>/dev/null
